@@ -1,7 +1,7 @@
 """Executing format conversions by every route C10 names and logging observations (kind "conv")."""
 from . import common
 from .common import wint
-from .x_arith import mk, fmt_of, modes_of
+from .x_arith import mk, fmt_of, modes_of, mk_hist
 
 ROUTES = ['resize', 'resize-dtype', 'resize-view', 'like=', 'like()', 'ctor', 'ctor-dtype', 'call', 'set_val', 'equal', 'setitem-elem', 'setitem-slice']
 
@@ -29,7 +29,7 @@ def mkv(fx, np, t, codes, shape=None, **cfg):
     return x
 
 
-def observe_conv(fx, np, props, ts, td, codes, route, smodes, dmodes, shape=None, extra=None, byvalue=False):
+def observe_conv(fx, np, props, ts, td, codes, route, smodes, dmodes, shape=None, extra=None, byvalue=False, hist=None):
     """convert the values held by a source of format ts into format td by `route`.
     smodes: modes of the source object; dmodes: modes of the destination (the governing ones)."""
     Fxp = fx.Fxp
@@ -40,6 +40,9 @@ def observe_conv(fx, np, props, ts, td, codes, route, smodes, dmodes, shape=None
         base.update(extra)
     base['src'] = 'value' if byvalue else 'raw'
     mk = mkv if byvalue else globals()['mk']
+    if hist:        # the source received its codes by in-place writes after having been used
+        base['src'] = 'hist-' + hist
+        mk = lambda fx_, np_, t_, c_, shape_=None, **cfg_: mk_hist(fx_, np_, t_, c_, shape_, mode=hist, **cfg_)
     try:
         scalar = isinstance(codes, int)
         clist = [codes] if scalar else list(codes)
